@@ -224,6 +224,7 @@ func (p *Program) Func(rel, name string) *ssa.Function {
 	if f == nil {
 		panic(AnchorError{fmt.Sprintf("function %s.%s", rel, name)})
 	}
+	checkSignature(f)
 	return f
 }
 
